@@ -85,6 +85,8 @@ mod rcfile;
 mod scripting;
 mod shell;
 mod signals;
+#[cfg(cicada_verif)]
+pub mod verif_hooks;
 
 /// Represents an error calling `exec`.
 pub use crate::types::CommandResult;
